@@ -628,3 +628,26 @@ def case_scatter_dynamic_shape_attrs():
 
 
 CASES["scatter_dynamic_shape_attrs"] = case_scatter_dynamic_shape_attrs
+
+
+def case_scatter_dynamic_axis_range():
+    import onnx_ir as ir
+    from onnxscript.rewriter.rules.common import _redundant_scatter_nd as R
+
+    def c(name, arr):
+        return helper.make_node("Constant", [], [name], value=numpy_helper.from_array(np.asarray(arr, dtype=np.int64), name))
+    nodes = [helper.make_node("Shape", ["data"], ["shape"], start=0), c("axis", -3), helper.make_node("Gather", ["shape", "axis"], ["dim"], axis=0),
+             c("zero", 0), c("one", 1), helper.make_node("Range", ["zero", "dim", "one"], ["rng"]), c("m1", [-1]),
+             helper.make_node("Unsqueeze", ["rng", "m1"], ["idx"]), helper.make_node("ScatterND", ["t", "idx", "updates"], ["y"], reduction="none")]
+    g = helper.make_graph(nodes, "g", [vi("data", TensorProto.FLOAT, [3]), vi("t", TensorProto.FLOAT, [3, 4]), vi("updates", TensorProto.FLOAT, [3, 4])], [vi("y", TensorProto.FLOAT, [3, 4])])
+    m = helper.make_model(g, opset_imports=[helper.make_opsetid("", 18)], ir_version=9)
+    onnx.checker.check_model(m)
+    try:
+        R.rules.apply_to_model(ir.serde.deserialize_model(m))
+    except Exception as e:  # noqa: BLE001
+        print(f"ScatterND over Range(0, Gather(Shape(data[3]), -3)): applying the rule set raises {type(e).__name__}: {e}")
+        return 1
+    return 0
+
+
+CASES["scatter_dynamic_axis_range"] = case_scatter_dynamic_axis_range
